@@ -4,6 +4,7 @@ import (
 	"fmt"
 	"go/token"
 	"go/types"
+	"reflect"
 	"strconv"
 	"strings"
 
@@ -338,6 +339,7 @@ func init() {
 			}
 			return tuple{"", 0}
 		},
+		"(reflect.Kind).String": func(p *Path, fr *frame, a []value) value { return reflect.Kind(asInt64(a[0])).String() },
 		"runtime.Callers": func(p *Path, fr *frame, a []value) value { return 0 },
 		"runtime.KeepAlive": func(p *Path, fr *frame, a []value) value { return nil },
 	} {
@@ -353,11 +355,19 @@ var noSSAPkgs = map[string]bool{
 	"math/rand": true, "internal/bytealg": true, "internal/poll": true, "runtime/debug": true,
 }
 
+var ssaAllowed = map[string]bool{
+	"(reflect.StructTag).Get":    true,
+	"(reflect.StructTag).Lookup": true,
+}
+
 func checkSSAAllowed(fn *ssa.Function) {
 	if fn.Pkg != nil && noSSAPkgs[fn.Pkg.Pkg.Path()] {
 		// errorString methods of package runtime are pure and needed for
 		// panics raised by the engine
 		if fn.Pkg.Pkg.Path() == "runtime" && strings.Contains(fn.String(), "errorString") {
+			return
+		}
+		if ssaAllowed[fn.String()] {
 			return
 		}
 		panic(engineError{fmt.Sprintf("no model for external function %s", fn)})
